@@ -8,6 +8,7 @@ import (
 	"flag"
 	"fmt"
 	"io"
+	"math/big"
 	"math/rand"
 	"os"
 	"path/filepath"
@@ -101,6 +102,18 @@ func txView(tx *bt.Tx) (v Ev) {
 }
 
 // ---- the calls ---------------------------------------------------------------------------
+
+// wrapClaim returns ceil(j*2^64/k)+t for a random item size k in 2..100, 0 < j < k, t in {0, 1}:
+// k*claim overflows 64 bits and lands on a value below 2k.
+func wrapClaim(rng *rand.Rand) uint64 {
+	k := uint64(2 + rng.Intn(99))
+	j := uint64(1 + rng.Intn(int(k-1)))
+	two64 := new(big.Int).Lsh(big.NewInt(1), 64)
+	q := new(big.Int).Mul(two64, new(big.Int).SetUint64(j))
+	q.Add(q, new(big.Int).SetUint64(k-1))
+	q.Div(q, new(big.Int).SetUint64(k))
+	return q.Uint64() + uint64(rng.Intn(2))
+}
 
 // plainReader hides every method of the underlying reader except Read.
 type plainReader struct{ r io.Reader }
@@ -570,8 +583,8 @@ func txwire(args []string) error {
 				lst := append(vint(2, minWidth(2)), append(append([]byte{}, g.raw...), g2.raw...)...)
 				parseAll("gen-list", lst, "list", "listp")
 				parseAll("gen-list", append(append([]byte{}, lst...), g.raw...), "list", "listp") // data follows the list
-				parseAll("gen-list", append(vint(3, 1), lst[1:]...), "list") // claims one more than present
-				parseAll("gen-list", append(vint(1, 1), lst[1:]...), "list") // stops at count
+				parseAll("gen-list", append(vint(3, 1), lst[1:]...), "list")                      // claims one more than present
+				parseAll("gen-list", append(vint(1, 1), lst[1:]...), "list")                      // stops at count
 			}
 			// truncations at field boundaries +-1
 			if i%6 == 0 && len(g.raw) < 1500 {
@@ -637,8 +650,19 @@ func txwire(args []string) error {
 					parseAll("crafted", m, "jsonhex", "jsonnodehex")
 				}
 			}
+			// counts chosen so that count * (a plausible per-item size k) wraps around 2^64 to a
+			// small value: the classic way past a "count*size <= remaining" plausibility guard
+			for _, off := range g.lenOffs {
+				for rep := 0; rep < 3; rep++ {
+					c := wrapClaim(rng)
+					m := append(append([]byte{}, g.raw[:off]...), vint(c, 9)...)
+					m = append(m, make([]byte, []int{0, 48, 200}[rep])...)
+					parseAll("crafted-wrap", m, "bytes", "reader")
+				}
+			}
 			claim := hugeClaims[i%len(hugeClaims)]
 			parseAll("crafted", append(vint(claim, minWidth(claim)), g.raw...), "list")
+			parseAll("crafted-wrap", append(append(vint(wrapClaim(rng), 9), g.raw...), make([]byte, 64)...), "list")
 			if len(g.tx.Inputs) > 0 {
 				ib := g.tx.Inputs[0].Bytes(false)
 				parseAll("crafted", append(append([]byte{}, ib[:36]...), vint(claim, minWidth(claim))...), "input", "inputext")
